@@ -28,7 +28,7 @@ func init() {
 				"R5: the conversions that feed the servers, the cache and the connection limiter copy each validated setting into the constructor field of the same meaning (a wrong-field copy would put an unvalidated value where a validated one is assumed).",
 			NotCovered: "hazards other than the recognised ones (non-positive quantities, family bounds, division by zero); validation " +
 				"of lists, URLs and cross-references between sections; the environment variables.",
-			Rules: map[string]string{"C20-R16": "a duration setting for which validation accepts zero reaches context.WithTimeout only behind a comparison with zero (a zero timeout is an expired context, not no timeout)", "C20-R15": "a configuration section whose validate accepts a nil receiver is read only after a nil test (receiver in its own methods, loaded pointer elsewhere in cmd)", "C20-R14": "allocations sized by a configuration setting: the setting has an upper bound in validation (known findings: the rate-limit counts and the TCP pipeline count have none)", "C20-RC": "class rules (error chains, shadowed results, character classes, crossed arguments, pool constructors, array pools, loop completeness, loop-carried buffers, replacing setters, complete clones, Grow arithmetic, pooled-buffer escape, sorted searches, fresh decode targets, per-iteration objects, whole-message copies, codec guards) over the packages this property rests on", "C20-R13": "server.bindData: interface bindings without an interface-listener manager are rejected with an error", "C20-R12": "cacheConfig.toInternal: cache type none exactly when size is 0; dnssvc.newListenConfig wraps a listen configuration with the connection limiter only when there is one", "C20-R11": "newServerDNS accepts exactly the documented idle-timeout interval [0, MaxTCPIdleTimeout] (interval derived from the edges into the panic)", "C20-R1": "zero / negative rejection of every numeric setting", "C20-R2": "subnet key length family bounds",
+			Rules: map[string]string{"C20-R17": "validateDNSCrypt accepts exactly the configurations with provider name, both keys and one of the two implemented encryption schemes", "C20-R16": "a duration setting for which validation accepts zero reaches context.WithTimeout only behind a comparison with zero (a zero timeout is an expired context, not no timeout)", "C20-R15": "a configuration section whose validate accepts a nil receiver is read only after a nil test (receiver in its own methods, loaded pointer elsewhere in cmd)", "C20-R14": "allocations sized by a configuration setting: the setting has an upper bound in validation (known findings: the rate-limit counts and the TCP pipeline count have none)", "C20-RC": "class rules (error chains, shadowed results, character classes, crossed arguments, pool constructors, array pools, loop completeness, loop-carried buffers, replacing setters, complete clones, Grow arithmetic, pooled-buffer escape, sorted searches, fresh decode targets, per-iteration objects, whole-message copies, codec guards) over the packages this property rests on", "C20-R13": "server.bindData: interface bindings without an interface-listener manager are rejected with an error", "C20-R12": "cacheConfig.toInternal: cache type none exactly when size is 0; dnssvc.newListenConfig wraps a listen configuration with the connection limiter only when there is one", "C20-R11": "newServerDNS accepts exactly the documented idle-timeout interval [0, MaxTCPIdleTimeout] (interval derived from the edges into the panic)", "C20-R1": "zero / negative rejection of every numeric setting", "C20-R2": "subnet key length family bounds",
 				"C20-R3": "section table completeness", "C20-R4": "divisor provenance", "C20-R5": "validated settings are copied into the constructor fields of the same meaning",
 				"C20-R8": "builder flags computed over all server groups accumulate (a later group cannot switch off what an earlier group needs, e.g. the profile database)",
 				"C20-R6": "DDR record validation: DoH port needs a path, hints must be of their address family"},
@@ -187,6 +187,23 @@ func runC20(c *an.Ctx) {
 	if n := c20ZeroTimeouts(c, "C20-R16"); n < 1 {
 		c.Und("C20-R16", "timeouts for which zero is accepted", token.NoPos, "no context.WithTimeout fed by such a setting found (anchor: backend.timeout)")
 	}
+	// ---- R17: an inline DNSCrypt resolver configuration is accepted only with names, keys and one of the two
+	// encryption schemes the server implements
+	c.Floor("C20-R17", 1)
+	xsalsa, _ := c.ConstInt("github.com/ameshkov/dnscrypt/v2", "XSalsa20Poly1305")
+	xchacha, _ := c.ConstInt("github.com/ameshkov/dnscrypt/v2", "XChacha20Poly1305")
+	decide(c, "C20-R17", "cmd.validateDNSCrypt", an.DecideCfg{
+		Dom: an.Domain{"p0.ProviderName": an.Strs("", "2.dnscrypt-cert.example"), "p0.PublicKey": an.Strs("", "k"), "p0.PrivateKey": an.Strs("", "k"),
+			"p0.EsVersion": an.Ints(0, 1, 2, 3, 65535)},
+		Expect: func(f an.Features, o an.AOutcome) string {
+			ok := f.S("p0.ProviderName") != "" && f.S("p0.PublicKey") != "" && f.S("p0.PrivateKey") != "" &&
+				xsalsa != xchacha && (f.I("p0.EsVersion") == xsalsa || f.I("p0.EsVersion") == xchacha)
+			if len(o.Ret) != 1 || ok != (o.Ret[0].Kind == an.KNil) {
+				return fmt.Sprintf("accepted=%v (provider name and both keys set, es_version XSalsa20Poly1305 or XChacha20Poly1305: the server stops serving for any other value); got %s", ok, o.RetString())
+			}
+			return ""
+		},
+	})
 	cmdConversions(c, "C20-R5", nil, 30)
 	// ---- R12: what an accepted cache / connection-limit configuration turns into: no cache exactly when size is 0
 	// (a zero-sized cache object panics at start-up), and a disabled (nil) limiter is never wrapped around a listener
